@@ -347,7 +347,8 @@ def getitem_spec(c, d, idxv, bs, n, t):
         if got is None:
             c.fail("getitem.cov.rank", "covariance of a 0-d selection is not 0-d")
         else:
-            c.prove("getitem.cov.elem", got == v.cov_at(ii[:-2], ii[-2:], ii[-2:]))
+            ev = v.event_rank()
+            c.prove("getitem.cov.elem", got == v.cov_at(ii[:-ev], ii[-ev:], ii[-ev:]))
         return
     bdims = mspec.dims[: len(mspec.dims) - er]
     edims = mspec.dims[len(mspec.dims) - er:]
@@ -358,6 +359,13 @@ def getitem_spec(c, d, idxv, bs, n, t):
     src1 = [ct.at(bidx + e1) for ct in coords]
     src2 = [ct.at(bidx + e2) for ct in coords]
     same_batch = z3.And(*[x == y for x, y in zip(src1[:nb], src2[:nb])]) if nb else z3.BoolVal(True)
+    if nb and er == 1 and len(edims) == 1 and not getattr(c, "allow_duplicate_batch_selection", False):
+        # when a *batch* dimension becomes the event dimension (batch index tensor + int event index) the same batch
+        # element must not be selected twice: the result is then documented as independent copies, which a repeated
+        # element is not (precondition, stated in DESIGN C10)
+        all_same = z3.And(*[x == y for x, y in zip(src1, src2)])
+        distinct_pos = z3.Or(*[a != b for a, b in zip(e1, e2)])
+        c.assume(z3.Implies(distinct_pos, z3.Not(all_same)), "batch index tensors that become the event dimension select distinct elements")
     want = z3.If(same_batch, v.cov_at(src1[:nb], src1[nb:], src2[nb:]), z3.RealVal(0))
     # result covariance at (b', e1, e2): event dims of the result view
     def ev(e):
@@ -374,6 +382,7 @@ def getitem_spec(c, d, idxv, bs, n, t):
     c.prove("getitem.cov_extent[col]", rv.cov.dims[-1].size == nev)
     c.prove("getitem.cov_batch_rank", z3.BoolVal(len(rv.cov.dims) - 2 <= len(bdims)))
     c.prove("getitem.cov.elem", got == want)
+    return res
 
 
 def _group(dims, flat_atoms):
